@@ -249,7 +249,7 @@ type solveResult struct {
 
 func solverHeader(s string, ground bool) string {
 	switch s {
-	case "z3", "z3new":
+	case "z3", "z3new", "z3@7", "z3new@7":
 		if ground {
 			return ""
 		}
@@ -275,14 +275,19 @@ func runSolver(ctx context.Context, s, query string, timeout time.Duration, want
 	defer os.Remove(f.Name())
 	var args []string
 	switch s {
-	case "z3", "z3new":
-		args = []string{fmt.Sprintf("-T:%d", int(timeout.Seconds())+1), f.Name()}
+	case "z3", "z3new", "z3@7", "z3new@7":
+		args = []string{fmt.Sprintf("-T:%d", int(timeout.Seconds())+1)}
+		if strings.HasSuffix(s, "@7") {
+			// second attempt under another random seed: the E-matching search of a quantified goal is seed-sensitive
+			args = append(args, "smt.random_seed=7", "sat.random_seed=7")
+		}
+		args = append(args, f.Name())
 	case "cvc5":
 		args = []string{"--incremental", fmt.Sprintf("--tlimit=%d", timeout.Milliseconds()), f.Name()}
 	}
 	cctx, cancel := context.WithTimeout(ctx, timeout+2*time.Second)
 	defer cancel()
-	cmd := exec.CommandContext(cctx, solverBin[s], args...)
+	cmd := exec.CommandContext(cctx, solverBin[strings.TrimSuffix(s, "@7")], args...)
 	var out bytes.Buffer
 	cmd.Stdout = &out
 	cmd.Stderr = &out
@@ -362,6 +367,31 @@ func discharge(o *Obligation, timeout time.Duration, solvers []string, extra []s
 				final = r
 			}
 		}
+	}
+	if final.r != "unsat" && !(final.r == "sat" && ground) && !o.ShortTimeout && len(solvers) > 1 && !strings.HasPrefix(o.Kind, "vacuity") && o.Kind != "cover" {
+		// nothing decided it: one more attempt with the two z3 versions under a different random seed (an `unsat` is a proof
+		// whatever the seed; a goal that is really violated stays undecided)
+		t2 := timeout
+		if t2 > 10*time.Second {
+			t2 = 10 * time.Second
+		}
+		ctx2, cancel2 := context.WithCancel(context.Background())
+		ch2 := make(chan res, 2)
+		for _, s := range []string{"z3new@7", "z3@7"} {
+			go func(s string) {
+				r, rest, ms := runSolver(ctx2, s, q, t2, ground)
+				ch2 <- res{s, r, rest, ms}
+			}(s)
+		}
+		for i := 0; i < 2; i++ {
+			r := <-ch2
+			detail = append(detail, fmt.Sprintf("%s=%s(%dms)", r.s, r.r, r.ms))
+			if r.r == "unsat" {
+				final = r
+				break
+			}
+		}
+		cancel2()
 	}
 	o.Result = final.r
 	if final.r == "sat" && !ground {
